@@ -113,7 +113,7 @@ def gen(rng: random.Random, k: int, tier: str) -> dict:
         "fault_rate": rng.choice([0.0, 0.1, 0.2, 0.35]),
         "create_w": [rng.choice([2, 4, 6]), rng.choice([1, 2]), rng.choice([0, 1]), rng.choice([0, 1]),
                      rng.choice([0, 1, 2]), rng.choice([0, 1]), rng.choice([0, 1, 2])],
-        "infer_w": rng.choice([0.0, 0.3, 0.6, 1.0]),
+        "infer_w": rng.choice([0.0, 0.5, 1.0, 1.5]),
         "len": rng.randint(8, 36) * (3 if deep else 1),
     }
     ops = []
@@ -193,6 +193,22 @@ def gen(rng: random.Random, k: int, tier: str) -> dict:
             ops.append({"op": "storm", "n": rng.randint(2, 12), "keep": rng.randint(0, 2)})
         elif kind == "bad_switch":
             ops.append({"op": "bad_switch", "what": rng.choice(["backend", "optimizer", "precision", "type"])})
+    # compiled-objective reuse: the same model fitted under jax at two different precisions (the jit cache of
+    # optimize/opt_jax.py holds traces keyed on the model object; a trace made at the other precision must not be reused)
+    models = [i for i, v in live.items() if v == "model"]
+    if "jax" in cfg["backends"] and len(cfg["precs"]) > 1 and models and rng.random() < 0.35:
+        oid = rng.choice(models)
+        p1, p2 = rng.sample(["64b", "32b"], 2)
+        what = rng.choice(["fit", "fit", "fixed"])
+        inf = {"op": "infer", "id": oid, "what": what, "grad": rng.choice([None, True, False]), "stitch": rng.random() < 0.3}
+        ops.append({"op": "switch", "backend": "jax", "precision": p1, "optimizer": rng.choice(OPTS), "bform": "str", "oform": "str", "pform": "str"})
+        ops.append(dict(inf))
+        if rng.random() < 0.5:
+            ob = rng.choice(cfg["backends"])
+            ops.append({"op": "switch", "backend": ob, "precision": rng.choice(cfg["precs"]), "optimizer": rng.choice(OPTS), "bform": "str", "oform": "str", "pform": "str"})
+        ops.append({"op": "switch", "backend": "jax", "precision": p2, "optimizer": ops[-2]["optimizer"] if ops[-1]["op"] == "infer" else rng.choice(OPTS),
+                    "bform": "str", "oform": "str", "pform": "str"})
+        ops.append(dict(inf))
     return {"cfg": cfg, "ops": ops}
 
 
